@@ -1,4 +1,5 @@
 import PyxisVerif.Props.C17
+import PyxisVerif.Props.CaseLift
 #print axioms PyxisVerif.C17.doc_join
 #print axioms PyxisVerif.C17.doc_not_string_rejected
 #print axioms PyxisVerif.C17.docs_line_for_line
@@ -12,3 +13,10 @@ import PyxisVerif.Props.C17
 #print axioms PyxisVerif.C17.type_flags
 #print axioms PyxisVerif.C17.enum_flags
 #print axioms PyxisVerif.C17.packed_no_align
+#print axioms PyxisVerif.C17.case_type_flags
+#print axioms PyxisVerif.C17.case_enum_flags
+#print axioms PyxisVerif.C17.case_docs_on_struct_and_fields
+#print axioms PyxisVerif.C17.case_padding_private
+#print axioms PyxisVerif.C17.case_docs_on_wrapper
+#print axioms PyxisVerif.C17.case_docs_on_slot
+#print axioms PyxisVerif.C17.case_packed_no_align
